@@ -1,5 +1,5 @@
 (* C41 — executable model of parsec/class/info.c (info registry + per-object
-   info arrays).  Definitions only; proofs are in InfoRegProofs.v / InfoSpecProofs.v.
+   info arrays).  Definitions only; proofs are in InfoRegProofs.v, InfoSpecProofs.v, InfoMain.v.
 
    Conventions
    * info identifiers are [nat]; PARSEC_INFO_ID_UNDEFINED (-1) is [None];
